@@ -122,6 +122,13 @@ def run_case(ctx, case):
         elif ref["outcome"] != "ok":
             ctx.fail("clean-room:disjoint-libraries-rejected:%s" % ref["outcome"], {"probe": probe, "detail": ref})
         else:
+            # a command file can use exactly the commands of the library: 'Sum' / 'SUM' / 'NOT' load iff Sum / FuzzyNot are there
+            lk = ref.get("lookups") or {}
+            for form, cmdname in (("mpilot", "Sum"), ("eems2", "Sum"), ("eems2-not", "FuzzyNot")):
+                want = "loaded" if cmdname in ref["library"] else "CommandDoesNotExist"
+                if lk.get(form) != want:
+                    ctx.fail("command-file-lookup:%s:%s-instead-of-%s" % (form, lk.get(form), want), {"probe": probe, "command": cmdname})
+                    break
             # names resolve to the requested libraries only
             for name, e in ref["library"].items():
                 if not any(e["module"] == lib or e["module"].startswith(lib + ".") for lib in probe):
